@@ -161,7 +161,7 @@ def main():
                 solver = None
         elif name == "load":
             problem = make_problem(spec["problem"])
-            solver = cls(problem, **spec["solver_kw"])
+            solver = cls(problem, **dict(spec["solver_kw"], **(op.get("kw") or {})))
             _verif.emit("x_new", solver=solver, config=config_text(solver),
                         ckpt_enabled=bool(solver.is_checkpointing_enabled))
             try:
